@@ -61,7 +61,8 @@ GhostInit(cfg) ==
     now     |-> 0,
     failing |-> FALSE,
     rrs     |-> <<>>,         \* per RR BIND pick in start order: [n, ch]
-    pend    |-> <<>> ]        \* pending (blocked) picks: [i, q] ; q = index in rrs (0 = not RR)
+    pend    |-> <<>>,         \* pending (blocked) picks: [i, q] ; q = index in rrs (0 = not RR)
+    resur   |-> FALSE ]       \* a replacement took over a channel whose connection had been reported SHUTDOWN (known finding KF-B7)
 
 ----------------------------------------------------------------------------
 \* derived notions
@@ -86,6 +87,12 @@ SeqFilter(s, P(_)) == LET F[i \in 0..Len(s)] == IF i = 0 THEN <<>>
 DropKey(s, k) == LET P(e) == e.key # k IN SeqFilter(s, P)
 SetKey(s, k, h) == Append(DropKey(s, k), [key |-> k, ch |-> h])
 
+\* calls are numbered by the order in which their picks returned; results of blocked picks may be
+\* delivered out of that order, so a call is stored at its own number (gaps are closed placeholders)
+NoCall == [ch |-> 0, cmd |-> "NONE", key |-> 0, t0 |-> 0, dl |-> 0, open |-> FALSE, ctx |-> FALSE]
+PutCall(cs, n, rec) ==
+  IF n <= Len(cs) THEN [cs EXCEPT ![n] = rec]
+  ELSE [i \in 1..n |-> IF i <= Len(cs) THEN cs[i] ELSE IF i = n THEN rec ELSE NoCall]
 Detect(g) == g.cfg.uc > 0 /\ g.cfg.ums > 0
 
 \* a pick-like event delivers the result of a pick: the pick itself or the await/cancel of a blocked one
@@ -159,7 +166,8 @@ GReport(g0, ev) ==
          swap == role = "repl" /\ ev.s = "READY"
          g1 == IF swap
                THEN LET old == g.chans[h].cur IN
-                    [g EXCEPT !.conns[c].role = "pool", !.conns[c].st = "READY",
+                    [g EXCEPT !.resur = @ \/ ~g.chans[h].inPool,
+                              !.conns[c].role = "pool", !.conns[c].st = "READY",
                               !.conns[old].role = IF g.conns[old].role = "pool" THEN "old" ELSE @,
                               !.chans[h] = [cur |-> c, repl |-> 0, inPool |-> TRUE],
                               !.det[h] = [lastResp |-> g.now, de |-> 0,
@@ -201,8 +209,8 @@ GPick(g0, ev) ==
         LET h == g2.conns[ev.rc].ch
             key == RouteKey(g, ev)
             home == BoundCh(g, key)
-            g3 == [g2 EXCEPT !.calls = Append(@, [ch |-> h, cmd |-> Cmd(g, ev.m), key |-> key, t0 |-> ev.rt,
-                                                   dl |-> ev.dl, open |-> TRUE, ctx |-> ~ev.noctx])]
+            g3 == [g2 EXCEPT !.calls = PutCall(@, ev.rn, [ch |-> h, cmd |-> Cmd(g, ev.m), key |-> key, t0 |-> ev.rt,
+                                                          dl |-> ev.dl, open |-> TRUE, ctx |-> ~ev.noctx])]
             g4 == IF q # 0 /\ q \in DOMAIN g3.rrs THEN [g3 EXCEPT !.rrs[q].ch = h] ELSE g3
             g5 == IF key # NoKey /\ home > 0 /\ g.cfg.fb /\ ~Ready(g, home) /\ Ready(g, h)
                   THEN [g4 EXCEPT !.stand = SetKey(g4.stand, key, h)] ELSE g4
@@ -212,7 +220,7 @@ IsClientDE(g, cl, ev) == ev.out = "CDE" /\ cl.dl > 0 /\ cl.dl <= g.now
 
 GDone(g0, ev) ==
   LET g == Tick(g0, ev) IN
-  IF ev.res = "SKIPPED" \/ ev.n \notin DOMAIN g.calls THEN g
+  IF ev.res = "SKIPPED" \/ ev.n \notin DOMAIN g.calls \/ g.calls[ev.n].ch = 0 THEN g
   ELSE
   LET cl == g.calls[ev.n]
       h == cl.ch
@@ -269,15 +277,15 @@ PlacedOnCur(g, ev) == ev.res = "SC" /\ PlacedCh(g, ev) # 0 /\ g.chans[PlacedCh(g
 
 C01(g, ev, g2) ==
   LET h == PHome(g, ev) IN
-  << Cl("C01_a", KeyedBound(g, ev) /\ Ready(g, h) /\ ev.res = "SC",
+  { Cl("C01_a", KeyedBound(g, ev) /\ Ready(g, h) /\ ev.res = "SC",
                  ev.rc = g.chans[h].cur),
      Cl("C01_b", KeyedBound(g, ev) /\ Ready(g, h) /\ ev.lat,
                  ev.res = "SC" /\ ev.rc = g.chans[h].cur),
      Cl("C01_d", KeyedBound(g, ev) /\ ~Ready(g, h) /\ ~g.cfg.fb,
-                 ev.res \in {"NOSC", "TF"}) >>
+                 ev.res \in {"NOSC", "TF"}) }
 
 C02(g, ev, g2) ==
-  << Cl("C02_a", Unkeyed(g, ev) /\ ev.res = "SC" /\ PickerOk(g, ev),
+  { Cl("C02_a", Unkeyed(g, ev) /\ ev.res = "SC" /\ PickerOk(g, ev),
                  /\ PlacedOnCur(g, ev)
                  /\ PlacedCh(g, ev) \in PReady(g, ev)
                  /\ \A x \in PReady(g, ev) : Streams(g, PlacedCh(g, ev)) <= Streams(g, x)),
@@ -286,7 +294,7 @@ C02(g, ev, g2) ==
                  /\ \A x \in Chans(g2) : ev.wb.streams[x] = Streams(g2, x)),
      Cl("C02_d", Unkeyed(g, ev) /\ PickerOk(g, ev) /\ g.pubs[ev.pk].st # "TF"
                    /\ \E x \in PReady(g, ev) : Streams(g, x) < g.cfg.wm,
-                 ev.res = "SC") >>
+                 ev.res = "SC") }
 
 Saturated(g, S) == \A x \in S : Streams(g, x) >= g.cfg.wm
 NoIdleConnecting(g) == \A x \in PoolOf(g) : CurSt(g, x) \notin {"IDLE", "CONNECTING"}
@@ -295,7 +303,7 @@ C03(g, ev, g2) ==
   LET firstInit == ev.op = "resolve" /\ ev.res = "OK" /\ ~g.init
       emptyPool == PoolOf(g) = {}
   IN
-  << Cl("C03_a", ev.op = "resolve" /\ ev.res = "OK" /\ ev.av # 0 /\ ~g.failing /\ NChans(g) = 0,
+  { Cl("C03_a", ev.op = "resolve" /\ ev.res = "OK" /\ ev.av # 0 /\ ~g.failing /\ NChans(g) = 0,
                  /\ Cardinality(NewsOk(ev)) = Max2(1, g2.cfg.min)
                  /\ Cardinality(PoolOf(g2)) = Max2(1, g2.cfg.min)),
      Cl("C03_b", NewsOk(ev) # {} /\ ev.op # "done" /\ ~(ev.op = "resolve" /\ NChans(g) = 0),
@@ -315,12 +323,12 @@ C03(g, ev, g2) ==
                  /\ ev.op = "state" /\ ev.c \in DOMAIN g.conns /\ g.conns[ev.c].role = "repl" /\ ev.s = "READY"
                  /\ \A i \in CCKinds(ev, "rm") :
                        /\ ev.cc[i].c = g.chans[g.conns[ev.c].ch].cur
-                       /\ g.conns[ev.cc[i].c].rm = 0) >>
+                       /\ g.conns[ev.cc[i].c].rm = 0) }
 
 StEntries(ev) == CCKinds(ev, "st")
 
 C04(g, ev, g2) ==
-  << Cl("C04_a", g2.pubs # <<>> /\ ev.op \notin {"reset", "end"},
+  { Cl("C04_a", g2.pubs # <<>> /\ ev.op \notin {"reset", "end"},
                  Last(g2.pubs).st = Agg(g2) /\ Last(g2.pubs).ready = ReadySet(g2)),
      Cl("C04_b", ev.op = "state" /\ (ReadySet(g) # ReadySet(g2) \/ (g.agg = "TF") # (g2.agg = "TF")),
                  StEntries(ev) # {}),
@@ -330,21 +338,21 @@ C04(g, ev, g2) ==
                  /\ ev.wb.nr = Cardinality({x \in PoolOf(g2) : CurSt(g2, x) = "READY"})
                  /\ ev.wb.nc = Cardinality({x \in PoolOf(g2) : CurSt(g2, x) = "CONNECTING"})
                  /\ ev.wb.nt = Cardinality({x \in PoolOf(g2) : CurSt(g2, x) = "TF"})),
-     Cl("C04_f", StEntries(ev) # {}, ev.op = "state") >>
+     Cl("C04_f", StEntries(ev) # {}, ev.op = "state") }
 
 C05(g, ev, g2) ==
-  << Cl("C05_a", ev.op \notin {"reset", "end"}, ev.res # "PANIC" /\ ev.probe # "PANIC"),
+  { Cl("C05_a", ev.op \notin {"reset", "end"}, ev.res # "PANIC" /\ ev.probe # "PANIC"),
      Cl("C05_b", HasResult(ev) /\ BadKeyReq(g, ev) /\ PickerOk(g, ev) /\ g.pubs[ev.pk].st # "TF" /\ PReady(g, ev) # {},
-                 ev.res \in {"ERR", "NOSC"}) >>
+                 ev.res \in {"ERR", "NOSC"}) }
 
 CtxEnded(g, ev) == ev.op = "cancel" \/ (ev.dl > 0 /\ ev.dl <= g.now)
 
 C06(g, ev, g2) ==
-  << Cl("C06_a", ev.op \notin {"reset", "end"}, ev.res \notin {"HANG", "SPIN"}),
+  { Cl("C06_a", ev.op \notin {"reset", "end"}, ev.res \notin {"HANG", "SPIN"}),
      Cl("C06_b", IsPickEv(ev) /\ ev.res = "BLOCKED",
                  IsRRBind(g, ev) /\ ~CtxEnded(Tick(g, ev), ev) /\ \E x \in Chans(g) : ~Ready(g, x)),
      Cl("C06_d", ev.op \notin {"reset", "end"} /\ ev.res \notin {"PANIC", "HANG", "SPIN", "TIMEOUT", "SKIPPED"},
-                 ev.probe = "OK") >>
+                 ev.probe = "OK") }
 
 \* refresh rule evaluated on the ghost detector of the call's channel (pre-state g, time of the event)
 RefreshDue(g, ev) ==
@@ -359,10 +367,10 @@ RefreshDue(g, ev) ==
      /\ ~d0.refreshing
 
 C07(g, ev, g2) ==
-  LET isDone == ev.op = "done" /\ ev.res # "SKIPPED" /\ ev.n \in DOMAIN g.calls
+  LET isDone == ev.op = "done" /\ ev.res # "SKIPPED" /\ ev.n \in DOMAIN g.calls /\ g.calls[ev.n].ch # 0
       isSwap == ev.op = "state" /\ ev.c \in DOMAIN g.conns /\ g.conns[ev.c].role = "repl" /\ ev.s = "READY"
   IN
-  << Cl("C07_a", isDone /\ g.chans[g.calls[ev.n].ch].inPool /\ ev.res = "OK",
+  { Cl("C07_a", isDone /\ g.chans[g.calls[ev.n].ch].inPool /\ ev.res = "OK",
                  Cardinality(NewsAll(ev)) = (IF RefreshDue(g, ev) THEN 1 ELSE 0)),
      Cl("C07_b", NewsAll(ev) # {} /\ ev.op = "done" /\ isDone,
                  /\ CCKinds(ev, "rm") = {}
@@ -374,19 +382,19 @@ C07(g, ev, g2) ==
                     /\ \A i \in CCKinds(ev, "rm") : ev.cc[i].c = old),
      Cl("C07_e", ev.op \in {"resolve", "state", "rerr", "advance", "factory"} \/ (IsPickEv(ev) /\ ev.op # "pick"),
                  \* connections are created only by resolver updates, picks (growth) and completions (refresh)
-                 ev.op = "resolve" \/ NewsAll(ev) = {}) >>
+                 ev.op = "resolve" \/ NewsAll(ev) = {}) }
 
 C08(g, ev, g2) ==
   LET h == PHome(g, ev)
       k == PKey(g, ev)
       ante == KeyedBound(g, ev) /\ g.cfg.fb /\ ~Ready(g, h) /\ PickerOk(g, ev)
   IN
-  << Cl("C08_a", ante /\ ev.lat /\ ReadySet(g) # {},
+  { Cl("C08_a", ante /\ ev.lat /\ ReadySet(g) # {},
                  PlacedOnCur(g, ev) /\ Ready(g, PlacedCh(g, ev))),
      Cl("C08_b", ante /\ StandCh(g, k) > 0 /\ ev.res = "SC",
                  ev.rc = g.chans[StandCh(g, k)].cur),
      Cl("C08_e", ante /\ ev.res = "SC",
-                 PlacedOnCur(g, ev) /\ Ready(g, PlacedCh(g, ev))) >>
+                 PlacedOnCur(g, ev) /\ Ready(g, PlacedCh(g, ev))) }
 
 \* round-robin: neighbours in start order over an unchanged channel list get cyclically consecutive channels
 RRNext(h, n) == (h % n) + 1
@@ -396,7 +404,7 @@ C09(g, ev, g2) ==
       known == HasResult(ev) /\ IsRRBind(g, ev) /\ ev.res = "SC" /\ q # 0 /\ q \in DOMAIN g2.rrs
       ch == PlacedCh(g, ev)
   IN
-  << Cl("C09_a", known /\ q > 1 /\ g2.rrs[q-1].ch # 0 /\ g2.rrs[q-1].n = g2.rrs[q].n,
+  { Cl("C09_a", known /\ q > 1 /\ g2.rrs[q-1].ch # 0 /\ g2.rrs[q-1].n = g2.rrs[q].n,
                  ch = RRNext(g2.rrs[q-1].ch, g2.rrs[q].n)),
      Cl("C09_a2", known /\ q < Len(g2.rrs) /\ g2.rrs[q+1].ch # 0 /\ g2.rrs[q+1].n = g2.rrs[q].n,
                  g2.rrs[q+1].ch = RRNext(ch, g2.rrs[q].n)),
@@ -404,35 +412,43 @@ C09(g, ev, g2) ==
                  PlacedOnCur(g, ev) /\ Ready(g, ch)),
      Cl("C09_c", ev.op \in {"await", "cancel"} /\ ev.res = "BLOCKED",
                  ~CtxEnded(Tick(g, ev), ev) /\ \E x \in Chans(g) : ~Ready(g, x)),
-     Cl("C09_e", known, ch \in Chans(g)) >>
+     Cl("C09_e", known, ch \in Chans(g)) }
 
 C17(g, ev, g2) ==
-  << Cl("C17_e", ev.op = "end", ev.res = "OK"),
-     Cl("C17_b", ev.op = "resolve" /\ ev.cfgk = "bad" /\ ~g.init, ev.res = "ERR" /\ ev.cc = <<>>) >>
+  { Cl("C17_e", ev.op = "end", ev.res = "OK"),
+     Cl("C17_b", ev.op = "resolve" /\ ev.cfgk = "bad" /\ ~g.init, ev.res = "ERR" /\ ev.cc = <<>>) }
 
 C20(g, ev, g2) ==
   LET isSwap == ev.op = "state" /\ ev.c \in DOMAIN g.conns /\ g.conns[ev.c].role = "repl" /\ ev.s = "READY"
       Upd(c) == \E i \in DOMAIN ev.cc : ev.cc[i].k = "upd" /\ ev.cc[i].c = c /\ ev.cc[i].av = ev.av
       Con(c) == \E i \in DOMAIN ev.cc : ev.cc[i].k = "conn" /\ ev.cc[i].c = c
   IN
-  << Cl("C20_a", ev.op = "resolve" /\ ev.res = "OK" /\ g.init,
+  { Cl("C20_a", ev.op = "resolve" /\ ev.res = "OK" /\ g.init,
                  \A h \in PoolOf(g) : Upd(g.chans[h].cur) /\ Con(g.chans[h].cur)),
      Cl("C20_a2", ev.op = "resolve" /\ ev.res = "OK",
                  \A h \in PoolOf(g2) : g2.conns[g2.chans[h].cur].av = ev.av),
      Cl("C20_b", NewsOk(ev) # {},
                  \A i \in NewsOk(ev) : ev.cc[i].av = g2.av /\ Con(ev.cc[i].c)),
      Cl("C20_c", isSwap, g2.conns[ev.c].av = g2.av),
-     Cl("C20_d", ev.op = "rerr", ev.cc = <<>> /\ ev.res = "OK") >>
+     Cl("C20_d", ev.op = "rerr", ev.cc = <<>> /\ ev.res = "OK") }
 
 Clauses(g, ev, g2) ==
-  C01(g, ev, g2) \o C02(g, ev, g2) \o C03(g, ev, g2) \o C04(g, ev, g2) \o C05(g, ev, g2) \o C06(g, ev, g2)
-  \o C07(g, ev, g2) \o C08(g, ev, g2) \o C09(g, ev, g2) \o C17(g, ev, g2) \o C20(g, ev, g2)
+  C01(g, ev, g2) \cup C02(g, ev, g2) \cup C03(g, ev, g2) \cup C04(g, ev, g2) \cup C05(g, ev, g2) \cup C06(g, ev, g2)
+  \cup C07(g, ev, g2) \cup C08(g, ev, g2) \cup C09(g, ev, g2) \cup C17(g, ev, g2) \cup C20(g, ev, g2)
 
 ClauseIds == {"C01_a", "C01_b", "C01_d", "C02_a", "C02_b", "C02_d", "C03_a", "C03_b", "C03_c", "C03_d", "C03_e",
               "C04_a", "C04_b", "C04_c", "C04_e", "C04_f", "C05_a", "C05_b", "C06_a", "C06_b", "C06_d",
               "C07_a", "C07_b", "C07_c", "C07_e", "C08_a", "C08_b", "C08_e",
               "C09_a", "C09_a2", "C09_b", "C09_c", "C09_e", "C17_e", "C17_b", "C20_a", "C20_a2", "C20_b", "C20_c", "C20_d"}
 
-Violated(g, ev, g2) == LET cs == Clauses(g, ev, g2) IN {cs[i].id : i \in {j \in DOMAIN cs : ~cs[j].ok}}
-Exercised(g, ev, g2) == LET cs == Clauses(g, ev, g2) IN {cs[i].id : i \in {j \in DOMAIN cs : cs[j].on}}
+\* descriptors used to match violations against the known-findings file
+Tags(g2) == IF g2.resur THEN {"resurrected"} ELSE {}
+
+\* model-level exemption mirroring the open entries of known_findings.json (KF-B7), so that TLC keeps
+\* exploring past the known finding; trace validation reports every violation with its tags and the
+\* driver matches them against the file
+Exempt(id, g2) == id = "C03_d" /\ g2.resur
+
+\* the clauses whose antecedent held on this event, each with its verdict (one evaluation of every clause)
+Exercised(g, ev, g2) == {[id |-> c.id, ok |-> c.ok] : c \in {x \in Clauses(g, ev, g2) : x.on}}
 =============================================================================
